@@ -85,5 +85,9 @@ void harness(void)
         CLAIM(c->appliedParams.fParams.contentSizeFlag == (pledged == ZSTD_CONTENTSIZE_UNKNOWN ? 0 : csflag), "C09 reset: no content size is announced when none was pledged");
         CLAIM(c->blockSize == (maxBlock < windowSize ? maxBlock : windowSize), "C07 reset: block size = min(max block size, window, pledged size)");
         CLAIM(c->initialized == 1 && c->bufferedPolicy == (ZSTD_buffered_policy_e)zbuff, "C07 reset: context marked initialised, buffering policy recorded");
+        if (zbuff == ZSTDb_buffered && inMode == ZSTD_bm_buffered)
+            CLAIM(c->inBuffSize >= c->blockSize && c->inBuffSize == windowSize + c->blockSize, "C10 reset: the input staging buffer holds a window plus a block (the sizing fact unit c10_cstream_flush assumes)");
+        if (zbuff == ZSTDb_buffered && outMode == ZSTD_bm_buffered)
+            CLAIM(c->outBuffSize >= 1, "C10 reset: the output staging buffer is not empty");
     }
 }
